@@ -1,7 +1,7 @@
 """C16 - decoder instances are isolated and unharmed by bad input."""
 from __future__ import annotations
 
-from ..lib import NMEA2000Decoder, NMEA2000Encoder
+from ..lib import NMEA2000Decoder, NMEA2000Encoder, PhysicalQuantities
 from .. import refdb, gen, wire, hist, project
 
 ID = "C16"
@@ -160,10 +160,21 @@ def probes(pool, rng, sources):
     return out
 
 
+UNIT_PREFS = [{"TEMPERATURE": "C", "PRESSURE": "bar", "ANGLE": "deg", "SPEED": "kts"}, {"TEMPERATURE": "f", "PRESSURE": "PSI"}, {"ANGLE": "deg"}]
+
+
+def unit_prefs(k):
+    return {getattr(PhysicalQuantities, q): u for q, u in UNIT_PREFS[k % len(UNIT_PREFS)].items()}
+
+
 def make_config(rng):
-    k = rng.randrange(5)
+    k = rng.randrange(7)
     if k == 0:
         return {}
+    if k == 5:
+        return {"preferred_units": unit_prefs(rng.randrange(3))}
+    if k == 6:
+        return {"preferred_units": unit_prefs(rng.randrange(3)), "build_network_map": True, "exclude_pgns": ["isoAddressClaim"]}
     if k == 1:
         return {"build_network_map": True}
     if k == 2:
@@ -341,6 +352,29 @@ def run_shard(spec, acc):
                 pos = next(i for i, (a, b) in enumerate(zip(want, got[j])) if a != b)
                 acc.violation("other-instances-change-results", f"config {cfg}: decoder {j} of {k} differs from a solo decoder at its input {pos}",
                               dict(w, position=pos, solo=repr(want[pos])[:300], shared=repr(got[j][pos])[:300]))
+        # --- C2: differently configured instances alive together, each given every input (so the very same
+        # payloads pass through all of them, and twice); every one must return what a decoder of its own
+        # configuration returned for that input sequence when it ran alone beforehand, and again afterwards
+        cfgs = [{}, {"preferred_units": unit_prefs(c)}, {"preferred_units": unit_prefs(c + 1), "build_network_map": c % 2 == 0}, dict(cfg)]
+        twice = [inp for _, _, inp in inputs] * 2
+        before = [[call(d0, inp) for inp in twice] for d0 in (NMEA2000Decoder(**cf) for cf in cfgs)]
+        together = [NMEA2000Decoder(**cf) for cf in cfgs]
+        mixed = [[] for _ in cfgs]
+        for inp in twice:
+            order = list(range(len(cfgs)))
+            rng.shuffle(order)
+            for j in order:
+                mixed[j].append(call(together[j], inp))
+        after = [[call(d0, inp) for inp in twice] for d0 in (NMEA2000Decoder(**cf) for cf in cfgs)]
+        for j, cf in enumerate(cfgs):
+            acc.count("mixed_configuration_runs")
+            for label, other in (("alongside differently configured decoders", mixed[j]), ("on a fresh decoder created after them", after[j])):
+                if other != before[j]:
+                    pos = next(i for i, (a, b) in enumerate(zip(before[j], other)) if a != b)
+                    acc.violation("differently-configured-instances-change-results",
+                                  f"config {cf}: input {pos} of the doubled history decodes differently {label} than on a decoder of the same configuration that ran alone before",
+                                  dict(w, config=repr(cf), position=pos, alone_before=repr(before[j][pos])[:300], other=repr(other[pos])[:300]))
+                    break
         acc.case((repr(cfg), tuple((i[0], i[1]) for _, _, i in inputs)) if (n_bad and compared) else None)
         acc.cover("configs", repr(sorted(cfg)))
         if c % 11 == 0:
